@@ -158,7 +158,9 @@ func BorrowInts(size int) []int {
 	// 	ints := make([]int, size, 8)
 	// 	return ints
 	// }
+	verifPoolEnter()
 	retVal := intsPool[size].Get()
+	verifPoolExit()
 	if retVal == nil {
 		return make([]int, size)
 	}
@@ -192,7 +194,9 @@ func ReturnInts(is []int) {
 	// }
 
 	verifIntsReturned(is)
+	verifPoolEnter()
 	intsPool[size].Put(is)
+	verifPoolExit()
 }
 
 // BorrowBools borrows a slice of bools from the pool. USE WITH CAUTION.
